@@ -245,13 +245,16 @@ Definition codec (rs : list range) : option (option (list lnode)) :=
 
 (* ---------- Decode / AppendCode on the linearised nodes ---------- *)
 
+(* `cur++` on the uint16 cursor: 65535 wraps to 0 *)
+Definition cur_succ (cur : nat) : nat := N.to_nat (N.of_nat (S cur) mod 65536).
+
 (* inner `for { node = nodes[cur]; if b <= node.bound {break}; cur++ }`;
    None = index out of range (a Go panic); the second component is the index found *)
 Fixpoint scan_nodes (fuel : nat) (nodes : list lnode) (cur : nat) (b : byte) : option (lnode * nat) :=
   match fuel with O => None | S fuel =>
   match nth_error nodes cur with
   | None => None
-  | Some n => if b <=? bound n then Some (n, cur) else scan_nodes fuel nodes (S cur) b
+  | Some n => if b <=? bound n then Some (n, cur) else scan_nodes fuel nodes (cur_succ cur) b
   end end.
 
 (* little-endian accumulation of up to k further bytes *)
@@ -278,6 +281,21 @@ Fixpoint ldecode (fuel : nat) (nodes : list lnode) (cur : nat) (s : list byte)
         let '(code, consumed) := take_extra (N.to_nat (65535 - child n)) s' code consumed in
         Some (code, consumed, false)
       else ldecode fuel nodes (N.to_nat (child n)) s' code consumed
+    end
+  end end.
+
+(* the node index at which each scan of Decode stops (the largest cursor value of that scan) *)
+Fixpoint ldecode_idx (fuel : nat) (nodes : list lnode) (cur : nat) (s : list byte) : list nat :=
+  match fuel with O => [] | S fuel =>
+  match s with
+  | [] => []
+  | b :: s' =>
+    match scan_nodes 257 nodes cur b with
+    | None => []
+    | Some (n, idx) =>
+      if child n =? 0 then [idx]
+      else if 65532 <=? child n then [idx]
+      else idx :: ldecode_idx fuel nodes (N.to_nat (child n)) s'
     end
   end end.
 
@@ -328,7 +346,7 @@ Fixpoint lwalk (fuel : nat) (nodes : list lnode) (cur : nat) (next_low : N) (low
     | None => None
     | Some rs =>
       if bound n =? 255 then Some rs
-      else match lwalk fuel nodes (S cur) (bound n + 1) low high with
+      else match lwalk fuel nodes (cur_succ cur) (bound n + 1) low high with
            | Some rest => Some (rs ++ rest)
            | None => None
            end
@@ -354,7 +372,7 @@ Fixpoint lin_node (nodes : list lnode) (d : nat) (n : tnode) (c : N) {struct n} 
   | TLeaf => (c =? 0) && (d <=? 4)%nat
   | TInvalid k => (k <=? 3)%nat && (c =? 65535 - N.of_nat k) && (d + k <=? 4)%nat
   | TSub cc =>
-    (c <? 65532) && (d <? 4)%nat && group_shape None cc &&
+    ((c <? 65532) && (c + N.of_nat (length cc) <=? 65532)) && (d <? 4)%nat && group_shape None cc &&
     (match d with O => c =? 0 | S _ => 0 <? c end) &&
     (fix go (cs : list (byte * tnode)) (cur : nat) {struct cs} : bool :=
        match cs with
